@@ -46,6 +46,36 @@ def _init_worker():
     os.environ['XDG_CACHE_HOME'] = os.path.join(_worker['dir'], '.cache')
     import atexit
     atexit.register(lambda: shutil.rmtree(_worker['dir'], ignore_errors=True))
+    # TextIsScalar (Props/C01 §9): the Lean models hold text as `List Char`; note every loaded file that has a string outside
+    # that type (lone surrogates from raw_unicode_escape / unicode_escape), so that it is counted and decided by the falsifier alone
+    import polib
+    def watch(fn):
+        def loader(*a, **kw):
+            f = fn(*a, **kw)
+            try:
+                _worker['nonscalar'] = file_not_scalar(f)
+            except Exception:
+                _worker['nonscalar'] = None
+            return f
+        return loader
+    polib.pofile = watch(polib.pofile)
+    polib.mofile = watch(polib.mofile)
+
+SURROGATE_RE = re.compile('[\ud800-\udfff]')
+
+def file_not_scalar(f):
+    """does any string of a loaded polib file hold a code point that is not a Unicode scalar value?"""
+    def bad(x):
+        return isinstance(x, str) and SURROGATE_RE.search(x) is not None
+    if bad(getattr(f, 'header', '')) or any(bad(k) or bad(v) for k, v in (getattr(f, 'metadata', None) or {}).items()):
+        return True
+    for e in f:
+        for a in ('msgid', 'msgstr', 'msgctxt', 'msgid_plural', 'comment', 'tcomment', 'previous_msgid', 'previous_msgctxt', 'previous_msgid_plural'):
+            if bad(getattr(e, a, None)):
+                return True
+        if any(bad(v) for v in (getattr(e, 'msgstr_plural', None) or {}).values()) or any(bad(x) for x in (getattr(e, 'flags', None) or ())):
+            return True
+    return False
 
 def _site(tb):
     """innermost frame inside REPO/lib → 'lib/x.py:function'"""
@@ -122,6 +152,7 @@ def run_case(case):
         kw['file_type'] = opts['file_type']
     checker, calls = H.make_checker(path, **kw)
     out = {'idx': idx, 'ntags': 0}
+    _worker['nonscalar'] = False
     t0 = time.process_time()
     import warnings, io, contextlib
     err = io.StringIO()
@@ -141,6 +172,7 @@ def run_case(case):
         return out
     finally:
         out['cpu'] = time.process_time() - t0
+        out['nonscalar'] = _worker.get('nonscalar')
         try:
             os.unlink(path)
         except OSError:
@@ -399,8 +431,11 @@ def main():
     tagcount = collections.Counter()
     crashes = {}
     slow = []
+    nonscalar = collections.Counter()
     def on_result(r):
         stats[r['kind']] += 1
+        if r.get('nonscalar'):
+            nonscalar[descr.get(r['idx'], '?').split(':')[0].split(' ')[0]] += 1
         for t in r.get('tags', ()):
             tagcount[t] += 1
         if r['kind'] in ('crash', 'badline', 'hang'):
@@ -412,7 +447,9 @@ def main():
     run_cases(cases, workers, on_result)
     chk.evaluations += len(cases)
     chk.note_cases(tagcount.keys())
-    chk.coverage['in_process'] = {'files': len(cases), 'by_generator': dict(kinds), 'sweeps': sweep_counts, 'outcomes': dict(stats), 'distinct_tags_emitted': len(tagcount),
+    chk.coverage['in_process'] = {'files': len(cases), 'by_generator': dict(kinds), 'sweeps': sweep_counts,
+                                  'loaded_text_not_scalar': {'files': sum(nonscalar.values()), 'by_source': dict(nonscalar), 'note': 'files with a lone surrogate in a loaded string: outside the List Char text '
+                                                             'type of the Lean models (TextIsScalar, Props/C01 §9); decided by this search alone'}, 'outcomes': dict(stats), 'distinct_tags_emitted': len(tagcount),
                                   'tags_emitted': dict(tagcount.most_common()), 'slowest_cpu_s': sorted(slow, reverse=True)[:5],
                                   'size_bytes': {'max': max(len(c[1]) for c in cases), 'mean': sum(len(c[1]) for c in cases) // len(cases)}}
     for key, rs in crashes.items():
@@ -474,6 +511,17 @@ def main():
             wd.write('race/p%d.po' % k, HG._wrap(HG._msg('', 'a%d' % k, 'b'), plural_forms='nplurals=2; plural=n != 1;'))
         for k in range(40 if chk.thorough else 12):
             runs.append((['-j', '6'] + ['race/p%d.po' % i for i in range(6)], '-j 6 with a fresh cache directory', 'ok', {'XDG_CACHE_HOME': os.path.join(wd.path, 'fresh-cache-%d' % k)}))
+        # codec exotica through the real command line: stdout is a pipe; the terminal encodings that cannot take a surrogate
+        exo = [c for c in cases if descr.get(c[0], '').startswith('exotica:')]
+        exo_sur = [c for c in exo if 'surrogate' in descr[c[0]]]
+        pick = rng.sample(exo_sur, min(len(exo_sur), 60 if chk.thorough else 24)) + rng.sample(exo, min(len(exo), 40 if chk.thorough else 12))
+        for k, (idx, data, ext, opts) in enumerate(pick):
+            name = 'exo/e%d%s' % (k, ext)
+            wd.write(name, data)
+            env = [None, {'PYTHONIOENCODING': 'utf-8:strict'}, {'LC_ALL': 'C', 'LANG': 'C'}, {'PYTHONIOENCODING': 'latin-1'}][k % 4]
+            runs.append(([name], descr[idx], 'ok') + ((env,) if env else ()))
+        if pick:
+            runs.append((['-j', '2'] + ['exo/e%d%s' % (k, c[2]) for k, c in enumerate(pick[:6])], 'codec exotica, -j 2', 'ok'))
         n_special = len(runs)
         sample = rng.sample(cases, min(n_cli, len(cases)))
         for k, (idx, data, ext, opts) in enumerate(sample):
